@@ -420,7 +420,8 @@ def run(tier, seed):
                 "--squash), rebase, cherry-pick, revert, mv, rm, branch -D interleaved with AI (2 sessions) and human edits; "
                 "oracle: every AI-reported line in every note and in blame has content its session reported writing; "
                 "non-trivial = more than 5 executed steps; distinct = distinct executed step list")
-    res.trusted = ["vlib/props/c03.py bookkeeping of reported contents", "real git 2.39"]
+    res.rule += ("; correspondence: Sys model's predicted notes vs the binary's on generated commit / partial-commit histories")
+    res.trusted = ["Lean 4.33 kernel", "vlib/props/c03.py bookkeeping of reported contents", "vlib/sysrun.py", "real git 2.39"]
     ok, out = C.build_git_ai()
     if not ok:
         res.obligation("build binary from /repo working tree", False, "build")
@@ -428,6 +429,13 @@ def run(tier, seed):
         return res.finish()
     if os.path.exists(os.path.join(C.LEAN, "GitAiModel", "Props", "C03.lean")):
         C.phase_proofs(res, PROP, THEOREMS)
+    # tie of the theorems' model (Model/Sys.lean) to the binary: predicted vs written notes on generated histories
+    from vlib.props import c04
+    import concurrent.futures as _cf
+    scs = [c04.gen_scenario(s_) for s_ in [seed * 100000 + 70000 + i for i in range(40 if tier == "quick" else 400)]]
+    with _cf.ThreadPoolExecutor(16) as ex:
+        list(ex.map(c04.run_scenario, scs))
+    c04.sys_tie(res, scs)
     n = 64 if tier == "quick" else 2000
     phase_walks(res, [seed * 100000 + i for i in range(n)], 25 if tier == "quick" else 40)
     return res.finish()
